@@ -220,7 +220,19 @@ func (e *Engine) ghostWrite(reach string, p SliceVal, heap Heap) {
 }
 
 func (e *Engine) ghostEvent(kind, reach, arg string) {
+	if e.pure || len(e.sc.binders) > 0 {
+		return // specification code has no effects, ghost or otherwise
+	}
 	e.ghostEvents = append(e.ghostEvents, [3]string{kind, reach, arg})
+	if kind == "logerror" {
+		// "an error-level line has been logged" is a state variable: set here, havocked monotonically
+		// at loop heads, readable in invariants
+		cur := e.loggedTerm
+		if cur == "" {
+			cur = "false"
+		}
+		e.loggedTerm = e.sc.define("logged", SBool, or(cur, reach))
+	}
 }
 
 // mapEpoch numbers the heap states of a map's contents: two Execute calls see the
